@@ -49,6 +49,7 @@ class ModuleAST:
         self.defs: Dict[str, ast.AST] = {}
         self.imports: Dict[str, tuple] = {}  # name -> ("module", modname) | ("from", modname, attr)
         self.assigns: Dict[str, ast.AST] = {}
+        self.star_imports = []  # modules imported with `from m import *`
         self._index(self.tree.body)
 
     def _index(self, body):
@@ -70,6 +71,9 @@ class ModuleAST:
                         parts = parts[: -(node.level - 1)]
                     base = ".".join(parts + ([node.module] if node.module else []))
                 for a in node.names:
+                    if a.name == "*":
+                        self.star_imports.append(base)
+                        continue
                     self.imports[a.asname or a.name] = ("from", base, a.name)
             elif isinstance(node, ast.Assign):
                 for t in node.targets:
